@@ -309,3 +309,9 @@ UNITS += [read_headers, parse_query]
 for _u in (read_body_loop, read_body_outer, read_headers):
     if not _u.replay:
         _u.replay = replay.battery('C10/driver.cpp', ['battery'])
+
+# replay for the remaining units: the C09 driver's battery on the real library (request targets whose decoded path contains "..", query strings with encoded delimiters, odd URLs)
+_bat9 = replay.battery('C09/driver.cpp', ['battery'])
+for _u in UNITS:
+    if _u not in (read_body_loop, read_body_outer, read_headers):
+        _u.replay = replay.first_of(_u.replay, _bat9) if _u.replay else _bat9
